@@ -232,12 +232,62 @@ fn same(v: &Option<Violation>, want: &Violation) -> bool {
 }
 
 pub fn minimise(prop: &dyn Prop, sc: &Scenario, want: &Violation) -> (Scenario, Violation) {
+    minimise_with(prop, sc, want, 6000, &|c: &Scenario| prop.judge(c, None))
+}
+
+/// judges a scenario in a fresh process (state left behind in statics by earlier runs of
+/// this process cannot influence it)
+pub fn judge_fresh(prop: &dyn Prop, sc: &Scenario) -> Option<Violation> {
+    let exe = std::env::current_exe().ok()?;
+    let tmp = format!(
+        "{}/fresh-{}-{:?}.json",
+        std::env::var("AISSIM_WORK").unwrap_or_else(|_| "/tmp".into()),
+        std::process::id(),
+        std::thread::current().id()
+    )
+    .replace(['(', ')'], "");
+    std::fs::write(&tmp, J::obj().set("scenario", sc.to_json()).to_string_compact()).ok()?;
+    let out = std::process::Command::new(exe)
+        .args(["check", prop.id(), "--replay", &tmp])
+        .env("AISSIM_CHILD", "1")
+        .output()
+        .ok();
+    let _ = std::fs::remove_file(&tmp);
+    let out = out?;
+    if out.status.code() != Some(1) {
+        return None;
+    }
+    let text = String::from_utf8_lossy(&out.stdout).to_string();
+    let line = text.lines().find(|l| l.trim_start().starts_with("clause="))?;
+    let field = |key: &str, next: &str| -> Option<String> {
+        let a = line.find(key)? + key.len();
+        let b = line[a..].find(next).map(|i| a + i).unwrap_or(line.len());
+        Some(line[a..b].to_string())
+    };
+    let detail = text.lines().skip_while(|l| !l.trim_start().starts_with("clause=")).nth(1).unwrap_or("").trim().to_string();
+    Some(Violation {
+        prop: prop.id().into(),
+        clause: field("clause=", " site=")?,
+        site: field(" site=", " build=")?,
+        build: field(" build=", " at_op=").unwrap_or_default(),
+        at: field(" at_op=", "\n").and_then(|s| s.trim().parse().ok()).unwrap_or(0),
+        detail,
+    })
+}
+
+pub fn minimise_with(
+    prop: &dyn Prop,
+    sc: &Scenario,
+    want: &Violation,
+    budget: i64,
+    judge: &dyn Fn(&Scenario) -> Option<Violation>,
+) -> (Scenario, Violation) {
     let mut cur = sc.clone();
     let mut cur_v = want.clone();
-    let mut budget: i64 = 6000;
-    let mut try_candidate = |cand: &Scenario, budget: &mut i64| -> Option<Violation> {
+    let mut budget: i64 = budget;
+    let try_candidate = |cand: &Scenario, budget: &mut i64| -> Option<Violation> {
         *budget -= 1;
-        let v = prop.judge(cand, None);
+        let v = judge(cand);
         if same(&v, want) {
             v
         } else {
@@ -658,11 +708,79 @@ pub fn cmd_check(args: &Args) -> i32 {
 
     let mut reported = 0usize;
     let mut lines: Vec<String> = Vec::new();
+    // A violation that only shows while other workers run in the same process (state shared
+    // between parser instances through a static) cannot be replayed from its schedule alone:
+    // re-judge each find now that the workers are gone, and if it has evaporated look for a
+    // deterministic witness sequentially.
+    let mut replacements: Vec<Found> = Vec::new();
+    let mut interference: Vec<&Found> = Vec::new();
     for f in unlisted.iter().take(8) {
-        let (msc, mv) = minimise(prop, &f.scenario, &f.violation);
-        let path = write_replay(args, &msc, &mv, f.scenario.ops.len(), true);
+        if !same(&prop.judge(&f.scenario, None), &f.violation) {
+            interference.push(f);
+        }
+    }
+    if !interference.is_empty() {
+        let limit = runs.min(40_000);
+        for k in 0..limit {
+            let run = args.first_run + k;
+            let sc = prop.generate(run_seed(args.seed, run), run);
+            if let Some(v) = prop.judge(&sc, None) {
+                if !known.iter().any(|kf| kf.clause == v.clause && kf.site == v.site) {
+                    replacements.push(Found { run, scenario: sc, violation: v });
+                    break;
+                }
+            }
+        }
+        for f in &interference {
+            lines.push(format!(
+                "  note: run {} violated {} / {} only while other simulated runs were executing in the same process \
+                 (parser instances share state); {}",
+                f.run,
+                f.violation.clause,
+                f.violation.site,
+                if replacements.is_empty() { "no single-threaded witness found in the first runs" } else { "a single-threaded witness is reported instead" }
+            ));
+        }
+    }
+    let stable: Vec<&Found> = unlisted
+        .iter()
+        .copied()
+        .filter(|f| !interference.iter().any(|g| g.run == f.run && g.violation.site == f.violation.site))
+        .chain(replacements.iter())
+        .collect();
+    let stable: Vec<&Found> = if stable.is_empty() { unlisted.clone() } else { stable };
+    for f in stable.iter().take(8) {
+        let (mut msc, mut mv) = minimise(prop, &f.scenario, &f.violation);
+        let mut path = write_replay(args, &msc, &mv, f.scenario.ops.len(), true);
         // the minimised file must reproduce in a fresh process
-        let confirmed = confirm_in_fresh_process(prop.id(), &path);
+        let mut confirmed = confirm_in_fresh_process(prop.id(), &path);
+        if !confirmed {
+            // the verdict depended on state earlier runs left behind in this process (a static
+            // in the code under test): redo the work with every judgement in a fresh process
+            let mut witness: Option<(Scenario, Violation)> = None;
+            if let Some(v) = judge_fresh(prop, &f.scenario) {
+                witness = Some((f.scenario.clone(), v));
+            } else {
+                for k in 0..400u64 {
+                    let run = args.first_run + k;
+                    let sc = prop.generate(run_seed(args.seed, run), run);
+                    if let Some(v) = judge_fresh(prop, &sc) {
+                        witness = Some((sc, v));
+                        break;
+                    }
+                }
+            }
+            if let Some((wsc, wv)) = witness {
+                let _ = std::fs::remove_file(&path);
+                let original = wsc.ops.len();
+                let (a, b) = minimise_with(prop, &wsc, &wv, 500, &|c: &Scenario| judge_fresh(prop, c));
+                msc = a;
+                mv = b;
+                path = write_replay(args, &msc, &mv, original, true);
+                confirmed = confirm_in_fresh_process(prop.id(), &path);
+                lines.push("  note: verdicts of this violation depend on state left in the process by earlier runs; it was re-found and minimised with every judgement in a fresh process".into());
+            }
+        }
         lines.push(format!("VIOLATION property={} replay={}", prop.id(), path));
         lines.push(format!(
             "  clause={} site={} build={} run={} ops={} (from {}) runs_with_this_violation={} fresh_process_replay={}",
